@@ -263,8 +263,30 @@ func (b *expandBody) expandChild(child hcl.Body, i *iteration, valueMarks cty.Va
 func (b *expandBody) JustAttributes() (hcl.Attributes, hcl.Diagnostics) {
 	// blocks aren't allowed in JustAttributes mode and this body can
 	// only produce blocks, so we'll just pass straight through to our
-	// underlying body here.
-	return b.original.JustAttributes()
+	// underlying body here, except that attributes and blocks already
+	// consumed by an earlier PartialContent call are not part of this
+	// (remaining) body.
+	original := b.original
+	if len(b.hiddenBlocks) > 0 {
+		hidden := &hcl.BodySchema{}
+		for _, blockS := range b.hiddenBlocks {
+			hidden.Blocks = append(hidden.Blocks, blockS)
+		}
+		// Any problems with these blocks were already reported by the
+		// call that consumed them.
+		_, original, _ = original.PartialContent(hidden)
+	}
+	attrs, diags := original.JustAttributes()
+	if len(b.hiddenAttrs) > 0 {
+		visible := make(hcl.Attributes, len(attrs))
+		for name, attr := range attrs {
+			if _, hidden := b.hiddenAttrs[name]; !hidden {
+				visible[name] = attr
+			}
+		}
+		attrs = visible
+	}
+	return attrs, diags
 }
 
 func (b *expandBody) MissingItemRange() hcl.Range {
